@@ -13,6 +13,11 @@ def run(tier):
     if not table:
         raise ToolError("Codec.tla printed no table")
     wd = workdir("c16")
+    wire = [x for x in tlc_printed_json(r["out"]) if isinstance(x, dict) and "wirecases" in x]
+    if not wire or not wire[0]["wirecases"]:
+        raise ToolError("Codec.tla printed no wire-form table")
+    table[0]["wirecases"] = wire[0]["wirecases"]
+    ck.cov["wire_form_cases"] = len(wire[0]["wirecases"])
     tf = os.path.join(wd, "table.json")
     json.dump(table[0], open(tf, "w"))
     lmax = 1200 if thorough else 64
